@@ -271,7 +271,26 @@ run_child(void)
 	aw_reset();
 	if (failk > 0)
 		aw_plan(failk, failpersist);
-	cookie = http_request(sas, &req, maxrlen, http_cb, NULL);
+	{
+		/* everything but the body buffer is the caller's again when the call returns: the request, its header array and all
+		 * its strings are handed over in blocks that are released straight afterwards */
+		struct http_request * rq = __real_malloc(sizeof(*rq));
+		struct http_header * hh = __real_malloc(sizeof(*hh) * (req.nheaders ? req.nheaders : 1));
+		char ** strs = __real_malloc(sizeof(char *) * (2 * req.nheaders + 2));
+		size_t q, ns = 0;
+
+		*rq = req;
+		strs[ns] = __real_malloc(strlen(req.method) + 1); strcpy(strs[ns], req.method); rq->method = strs[ns++];
+		strs[ns] = __real_malloc(strlen(req.path) + 1); strcpy(strs[ns], req.path); rq->path = strs[ns++];
+		for (q = 0; q < req.nheaders; q++) {
+			strs[ns] = __real_malloc(strlen(req.headers[q].header) + 1); strcpy(strs[ns], req.headers[q].header); hh[q].header = strs[ns++];
+			strs[ns] = __real_malloc(strlen(req.headers[q].value) + 1); strcpy(strs[ns], req.headers[q].value); hh[q].value = strs[ns++];
+		}
+		rq->headers = hh;
+		cookie = http_request(sas, rq, maxrlen, http_cb, NULL);
+		for (q = 0; q < ns; q++) { memset(strs[q], '#', strlen(strs[q])); __real_free(strs[q]); }
+		__real_free(strs); __real_free(hh); __real_free(rq);
+	}
 	vt_begin("http_request"); vt_bool("ok", cookie != NULL); common(); vt_end();
 	if (cookie != NULL) {
 		/* run */
